@@ -25,11 +25,8 @@ Definition h_m_idle_setup (x : state) (tr : transition) (m : nat) (ms : machine)
   let now := s_now x in
   let o' := mkOp m (Time now) (Time (now + sd)) OProc in
   let jb1 := set_op jb k o' in
-  pre' <- remove_from_buffer (m_pre ms) j ;;
-  in' <- put_in_buffer (m_in ms) (bc_cap (mc_in mc)) j ;;
-  let jb2 := set_j_loc jb1 (BIn m) in
-  let ms' := mkMachine MSetup (Time (now + sd)) pre' in' (m_post ms) (oc_tool oc) (m_out ms) in
-  Ok (with_sto (put_mach (put_job x j jb2) m ms') sto').
+  x1 <- move_job i (put_job x j jb1) j (BPre m) (BIn m) ;;
+  Ok (with_sto (set_mach_ctl x1 m MSetup (Time (now + sd)) (oc_tool oc) (m_out ms)) sto').
 
 (* handle_machine_setup_to_working_transition + begin_next_job_on_machine *)
 Definition h_m_setup_working (x : state) (tr : transition) (m : nat) (ms : machine) : res state :=
@@ -42,8 +39,7 @@ Definition h_m_setup_working (x : state) (tr : transition) (m : nat) (ms : machi
   let now := s_now x in
   let o' := mkOp m (Time now) (Time (now + d)) OProc in
   let jb1 := set_op jb k o' in
-  let ms' := mkMachine MWorking (Time (now + d)) (m_pre ms) (m_in ms) (m_post ms) (m_tool ms) (m_out ms) in
-  Ok (with_sto (put_mach (put_job x j jb1) m ms') sto').
+  Ok (with_sto (set_mach_ctl (put_job x j jb1) m MWorking (Time (now + d)) (m_tool ms) (m_out ms)) sto').
 
 (* handle_machine_working_to_outage_transition + begin_machine_outage *)
 Definition h_m_working_outage (x : state) (tr : transition) (m : nat) (ms : machine) : res state :=
@@ -53,12 +49,10 @@ Definition h_m_working_outage (x : state) (tr : transition) (m : nat) (ms : mach
   j <- of_opt EInvalidValue (tr_job tr) ;;
   jb <- get_job x j ;;
   let now := s_now x in
-  let ms' := mkMachine MOutage (Time (now + occ_for)) (m_pre ms) (m_in ms) (m_post ms) (m_tool ms) outs in
   k <- of_opt EPyType (first_proc jb) ;;
   o <- of_opt EPyType (nth_error (j_ops jb) k) ;;
   let jb1 := set_op jb k (set_op_end o (Time (now + occ_for))) in
-  (* replace machine first, then job *)
-  Ok (with_sto (put_job (put_mach x m ms') j jb1) sto').
+  Ok (with_sto (set_mach_ctl (put_job x j jb1) m MOutage (Time (now + occ_for)) (m_tool ms) outs) sto').
 
 (* handle_machine_outage_to_idle_transition + complete_active_operation_on_machine *)
 Definition h_m_outage_idle (x : state) (tr : transition) (m : nat) (ms : machine) : res state :=
@@ -68,12 +62,9 @@ Definition h_m_outage_idle (x : state) (tr : transition) (m : nat) (ms : machine
   o <- of_opt EInvalidValue (nth_error (j_ops jb) k) ;;
   let o' := mkOp (o_mach o) (o_start o) (Time (s_now x)) ODone in
   let jb1 := set_op jb k o' in
-  in' <- remove_from_buffer (m_in ms) j ;;
-  mc <- of_opt EInvalidValue (nth_error (i_machs i) m) ;;
-  post' <- put_in_buffer (m_post ms) (bc_cap (mc_post mc)) j ;;
-  let jb2 := set_j_loc jb1 (BPost m) in
-  let ms' := mkMachine MIdle (m_occ ms) (m_pre ms) in' post' (m_tool ms) (map release_outage (m_out ms)) in
-  Ok (put_mach (put_job x j jb2) m ms').
+  _ <- of_opt EInvalidValue (nth_error (i_machs i) m) ;;
+  x1 <- move_job i (put_job x j jb1) j (BIn m) (BPost m) ;;
+  Ok (set_mach_ctl x1 m MIdle (m_occ ms) (m_tool ms) (map release_outage (m_out ms))).
 
 (* handle_machine_transition: first matching condition in dictionary order *)
 Definition handle_machine_transition (x : state) (tr : transition) (m : nat) : res state :=
@@ -132,19 +123,17 @@ Definition get_waiting_time (x : state) (tr : transition) : res occ :=
         Ok (occ_of_time (o_end o))
   end.
 
-Definition set_t_wait (ts : transport) (oc : occ) : transport :=
-  mkTransport TWaiting oc (t_buf ts) (t_loc ts) (t_job ts) (t_out ts).
 
 (* handle_agv_transport_pickup_to_waitingpickup_transition *)
 Definition h_t_pickup_waiting (x : state) (tr : transition) (t : nat) (ts : transport) : res state :=
   _ <- of_opt EMissingJobId (tr_job tr) ;;
   oc <- get_waiting_time x tr ;;
-  Ok (put_trans x t (set_t_wait ts oc)).
+  Ok (set_trans_ctl x t TWaiting oc (t_loc ts) (t_job ts) (t_out ts)).
 
 (* handle_agv_waiting_pickup_to_waiting_pickup_transition *)
 Definition h_t_waiting_waiting (x : state) (tr : transition) (t : nat) (ts : transport) : res state :=
   oc <- get_waiting_time x tr ;;
-  Ok (put_trans x t (set_t_wait ts oc)).
+  Ok (set_trans_ctl x t TWaiting oc (t_loc ts) (t_job ts) (t_out ts)).
 
 (* time_utils._get_travel_time_from_spec: update-then-read *)
 Definition travel_from_spec (sto : list (Z * nat)) (a b : place) : res (Z * list (Z * nat)) :=
@@ -170,28 +159,9 @@ Definition h_t_to_transit (x : state) (tr : transition) (t : nat) (ts : transpor
   let src := place_of_bid (j_loc jb) in
   dst <- dest_not_done jb ;;
   '(trv, sto') <- travel_from_spec (s_sto x) src dst ;;
-  '(x1, tb) <-
-    match j_loc jb with
-    | BStd n =>
-        from <- of_opt EInvalidValue (nth_error (s_bufs x) n) ;;
-        '(from', tb) <- switch_buffer i from (t_buf ts) (BAgv t) j ;;
-        Ok (put_sbuf x n from', tb)
-    | BAgv _ => Err EInvalidValue
-    | BPre m =>
-        ms <- get_mach x m ;;
-        '(from', tb) <- switch_buffer i (m_pre ms) (t_buf ts) (BAgv t) j ;;
-        Ok (put_mach x m (mkMachine (m_st ms) (m_occ ms) from' (m_in ms) (m_post ms) (m_tool ms) (m_out ms)), tb)
-    | BIn m =>
-        ms <- get_mach x m ;;
-        '(from', tb) <- switch_buffer i (m_in ms) (t_buf ts) (BAgv t) j ;;
-        Ok (put_mach x m (mkMachine (m_st ms) (m_occ ms) (m_pre ms) from' (m_post ms) (m_tool ms) (m_out ms)), tb)
-    | BPost m =>
-        ms <- get_mach x m ;;
-        '(from', tb) <- switch_buffer i (m_post ms) (t_buf ts) (BAgv t) j ;;
-        Ok (put_mach x m (mkMachine (m_st ms) (m_occ ms) (m_pre ms) (m_in ms) from' (m_tool ms) (m_out ms)), tb)
-    end ;;
-  let ts' := mkTransport TTransit (OAt (s_now x + trv)) tb (t_loc ts) (t_job ts) (t_out ts) in
-  Ok (with_sto (put_trans (put_job x1 j (set_j_loc jb (BAgv t))) t ts') sto').
+  _ <- match j_loc jb with BAgv _ => Err EInvalidValue | _ => Ok tt end ;;
+  x1 <- move_job i x j (j_loc jb) (BAgv t) ;;
+  Ok (with_sto (set_trans_ctl x1 t TTransit (OAt (s_now x + trv)) (t_loc ts) (t_job ts) (t_out ts)) sto').
 
 (* handle_agv_transport_idle_to_working_transition *)
 Definition h_t_idle_working (x : state) (tr : transition) (t : nat) (ts : transport) : res state :=
@@ -203,8 +173,7 @@ Definition h_t_idle_working (x : state) (tr : transition) (t : nat) (ts : transp
   src <- match j_loc jb with BAgv _ => Err ETransportCfg | b => Ok (place_of_bid b) end ;;
   c <- of_opt ETransportCfg (travel_lookup (i_travel i) p src) ;;
   ttp <- tc_read (s_sto x) c ;;
-  let ts' := mkTransport TPickup (OAt (s_now x + ttp)) (t_buf ts) (LRoute p (j_loc jb) target) (Some j) (t_out ts) in
-  Ok (put_trans x t ts').
+  Ok (set_trans_ctl x t TPickup (OAt (s_now x + ttp)) (LRoute p (j_loc jb) target) (Some j) (t_out ts)).
 
 (* handle_agv_transport_transit_to_outage_transition + complete_transport_task *)
 Definition h_t_transit_outage (x : state) (tr : transition) (t : nat) (ts : transport) : res state :=
@@ -212,29 +181,19 @@ Definition h_t_transit_outage (x : state) (tr : transition) (t : nat) (ts : tran
   jb <- get_job x j ;;
   dst <- match t_loc ts with LRoute _ _ d => Ok d | LAt _ => Err EInvalidValue end ;;
   ac <- of_opt EInvalidValue (nth_error (i_trans i) t) ;;
-  match dst with
-  | PM m =>
-      ms <- get_mach x m ;;
-      '(tb, pre') <- switch_buffer i (t_buf ts) (m_pre ms) (BPre m) j ;;
-      '(outs, sto') <- new_outage_states sigma (s_now x) (s_sto x) (ac_out ac) (t_out ts) ;;
-      occ_for <- occupied_time outs ;;
-      let ts' := mkTransport TOutage (OAt (s_now x + occ_for)) tb (LAt dst) None outs in
-      let ms' := mkMachine (m_st ms) (m_occ ms) pre' (m_in ms) (m_post ms) (m_tool ms) (m_out ms) in
-      Ok (with_sto (put_mach (put_trans (put_job x j (set_j_loc jb (BPre m))) t ts') m ms') sto')
-  | PB n =>
-      bs <- of_opt EInvalidValue (nth_error (s_bufs x) n) ;;
-      '(tb, b') <- switch_buffer i (t_buf ts) bs (BStd n) j ;;
-      '(outs, sto') <- new_outage_states sigma (s_now x) (s_sto x) (ac_out ac) (t_out ts) ;;
-      occ_for <- occupied_time outs ;;
-      let ts' := mkTransport TOutage (OAt (s_now x + occ_for)) tb (LAt dst) None outs in
-      Ok (with_sto (put_sbuf (put_trans (put_job x j (set_j_loc jb (BStd n))) t ts') n b') sto')
-  | PT _ => Err EInvalidValue
-  end.
+  B <- match dst with
+       | PM m => _ <- get_mach x m ;; Ok (BPre m)
+       | PB n => _ <- of_opt EInvalidValue (nth_error (s_bufs x) n) ;; Ok (BStd n)
+       | PT _ => Err EInvalidValue
+       end ;;
+  x1 <- move_job i x j (BAgv t) B ;;
+  '(outs, sto') <- new_outage_states sigma (s_now x) (s_sto x) (ac_out ac) (t_out ts) ;;
+  occ_for <- occupied_time outs ;;
+  Ok (with_sto (set_trans_ctl x1 t TOutage (OAt (s_now x + occ_for)) (LAt dst) None outs) sto').
 
 (* handle_agv_transport_outage_to_idle_transition *)
 Definition h_t_outage_idle (x : state) (tr : transition) (t : nat) (ts : transport) : res state :=
-  let ts' := mkTransport TIdle (t_occ ts) (t_buf ts) (t_loc ts) (t_job ts) (map release_outage (t_out ts)) in
-  Ok (put_trans x t ts').
+  Ok (set_trans_ctl x t TIdle (t_occ ts) (t_loc ts) (t_job ts) (map release_outage (t_out ts))).
 
 (* handle_transport_transition: first matching condition in dictionary order *)
 Definition handle_transport_transition (x : state) (tr : transition) (t : nat) : res state :=
